@@ -1,12 +1,12 @@
 package scn
 
 import (
-	"sync"
 	"errors"
 	"fmt"
 	"math/rand"
 	"reflect"
 	"strings"
+	"sync"
 
 	am "github.com/hashicorp/go-argmapper"
 	"github.com/hashicorp/go-hclog"
@@ -16,14 +16,16 @@ func init() { hclog.L().SetLevel(hclog.Error) }
 
 // Built holds the real objects of one scenario instance.
 type Built struct {
-	Env     *Env
-	S       Scenario
-	Target  *am.Func
-	Convs   []*am.Func
+	Env      *Env
+	S        Scenario
+	Target   *am.Func
+	Convs    []*am.Func
 	Defaults []am.Arg // default options of the target (NewFunc)
-	ValArgs []am.Arg // supplied values (call options), in scenario order after permutation
-	CnvArgs []am.Arg
-	Toks    []int // token of input j
+	ValArgs  []am.Arg // supplied values (call options), in scenario order after permutation
+	CnvArgs  []am.Arg
+	Toks     []int // token of input j
+	// the filter options of a redefine scenario were given to NewFunc (as defaults) instead of to Redefine
+	FiltersAtCtor bool
 }
 
 func labelOfValue(v *am.Value) Label {
@@ -61,6 +63,11 @@ func instantiate(s Scenario, r *rand.Rand, tok0 int) (b *Built, err error) {
 			s.Target.Form = "built"
 			s.Target.HasErr = true
 		}
+	}
+	if s.Mode == "redefine" && r.Intn(3) == 0 {
+		// the filters are options like any other: given at construction they apply to every Redefine of the function
+		defaults = append(defaults, filterArgs(s)...)
+		b.FiltersAtCtor = true
 	}
 	b.Defaults = defaults
 	if s.Mode != "convert" && s.Mode != "convcall" {
@@ -134,20 +141,27 @@ func (b *Built) Args(r *rand.Rand) []am.Arg {
 	case "nilconv":
 		out = append(out, am.Converter(nil))
 	}
-	if b.S.Mode == "redefine" {
-		if b.S.HasFilter {
-			var fs []am.FilterFunc
-			for _, t := range b.S.FilterIn {
-				fs = append(fs, am.FilterType(TypeOf(t)))
-			}
-			out = append(out, am.FilterInput(am.FilterOr(fs...)))
+	if b.S.Mode == "redefine" && !b.FiltersAtCtor {
+		out = append(out, filterArgs(b.S)...)
+	}
+	return out
+}
+
+// filterArgs returns the filter options of a redefine scenario.
+func filterArgs(s Scenario) []am.Arg {
+	var out []am.Arg
+	if s.HasFilter {
+		var fs []am.FilterFunc
+		for _, t := range s.FilterIn {
+			fs = append(fs, am.FilterType(TypeOf(t)))
 		}
-		switch b.S.FilterOut {
-		case "accept":
-			out = append(out, am.FilterOutput(func(am.Value) bool { return true }))
-		case "reject":
-			out = append(out, am.FilterOutput(func(am.Value) bool { return false }))
-		}
+		out = append(out, am.FilterInput(am.FilterOr(fs...)))
+	}
+	switch s.FilterOut {
+	case "accept":
+		out = append(out, am.FilterOutput(func(am.Value) bool { return true }))
+	case "reject":
+		out = append(out, am.FilterOutput(func(am.Value) bool { return false }))
 	}
 	return out
 }
